@@ -94,8 +94,10 @@ pub open spec fn texts_of(v: Seq<Seq<u8>>) -> Seq<Seq<char>>
     else if utf8_text(v.last()) is Some { texts_of(v.drop_last()).push(utf8_text(v.last())->0) }
     else { texts_of(v.drop_last()) }
 }
+// every value is text (what set_path stores; C19 speaks about path strings, so what get_path makes of other values is left open)
+pub open spec fn all_text(v: Seq<Seq<u8>>) -> bool { forall|k: int| 0 <= k < v.len() ==> utf8_text(#[trigger] v[k]) is Some }
 proof fn lemma_texts_of_bytes(p: Seq<Seq<char>>)
-    ensures texts_of(bytes_of_pieces(p)) == p
+    ensures texts_of(bytes_of_pieces(p)) == p, all_text(bytes_of_pieces(p))
     decreases p.len()
 {
     broadcast use axiom_utf8_roundtrip;
@@ -186,6 +188,7 @@ proof fn theorem_get_path_after_set_path(s: Seq<char>, after: Map<u16, Seq<Seq<u
         after.contains_key(11) ==> after[11] == bytes_of_pieces(path_pieces(s)),
     ensures
         // what get_path then returns (its postcondition)
+        all_text(if after.contains_key(11) { after[11] } else { Seq::empty() }),
         join_with(texts_of(if after.contains_key(11) { after[11] } else { Seq::empty() }), '/') == strip_leading_slash(s)
 {
     lemma_path_roundtrip(s);
@@ -274,7 +277,7 @@ def build(repo):
     u.loop(GP, 0, V('''                    invariant
                         it.seq().len() == options@.len(),
                         forall|j: int| 0 <= j < it.seq().len() ==> *(#[trigger] it.seq()[j]) == options@[j],
-                        strs_view(VECNAME_@) == texts_of(vals_view(*options).take(it.index() as int)),'''), iter_name='it')
+                        all_text(vals_view(*options).take(it.index() as int)) ==> strs_view(VECNAME_@) == texts_of(vals_view(*options).take(it.index() as int)),'''), iter_name='it')
     u.loop_body_start(GP, 0, V('''                    let ghost j0 = it.index() as int;
                     let ghost VEC0_ = VECNAME_@;
                     proof { assert(*option == options@[j0]); }'''))
@@ -283,16 +286,18 @@ def build(repo):
                         assert(vv[j0] == option@);
                         assert(vv.take(j0 + 1).drop_last() =~= vv.take(j0));
                         assert(vv.take(j0 + 1).last() == vv[j0]);
-                        if utf8_text(option@) is Some {
+                        if all_text(vv.take(j0 + 1)) {
+                            assert(utf8_text(vv.take(j0 + 1)[j0]) is Some);
+                            assert(all_text(vv.take(j0))) by { assert forall|k: int| 0 <= k < j0 implies utf8_text(#[trigger] vv.take(j0)[k]) is Some by { assert(vv.take(j0)[k] == vv.take(j0 + 1)[k]); } }
                             assert(strs_view(VECNAME_@) =~= strs_view(VEC0_).push(utf8_text(option@)->0));
-                        } else {
-                            assert(VECNAME_@ == VEC0_);
                         }
                     }'''))
     u.after(GP, V(r'let mut VECNAME_ = Vec::new\(\);'), V('''                proof { assert(strs_view(VECNAME_@) =~= Seq::<Seq<char>>::empty()); assert(vals_view(*options).take(0) =~= Seq::<Seq<u8>>::empty()); }'''))
     u.before(GP, V(r'strs_join\(&VECNAME_'), V('''                proof { let vv = vals_view(*options); assert(vv.take(vv.len() as int) =~= vv); }'''))
     u.contract(GP, '''        ensures
-            r@ == join_with(texts_of(if opts_view(self.message.options).contains_key(11) { opts_view(self.message.options)[11] } else { Seq::empty() }), '/')''', props=PROPS)
+            // for Uri-Path values that are text (everything set_path can store): the values joined by '/'
+            ({ let vals = if opts_view(self.message.options).contains_key(11) { opts_view(self.message.options)[11] } else { Seq::empty() };
+               all_text(vals) ==> r@ == join_with(texts_of(vals), '/') })''', props=PROPS)
     for l in ['lemma_join_split', 'lemma_first_piece', 'lemma_path_roundtrip', 'theorem_get_path_after_set_path', 'lemma_texts_of_bytes', 'lemma_kept_step']:
         u.probe(l)
     u.finish(common.HEAD)
